@@ -133,7 +133,7 @@ def run(tier, seed):
     bin_ = core.build_lalrpop()
     tools.build()
     base = core.seed_for("C26", seed) % (2 ** 31)
-    n = {"quick": 250, "thorough": 5000}[tier]
+    n = {"quick": 400, "thorough": 5000}[tier]
     res = core.pmap(layout_job, [(base + i, bin_, chk.work) for i in range(n)], chunksize=4)
     for i, recs in enumerate(res):
         if not recs:
@@ -147,7 +147,7 @@ def run(tier, seed):
                 chk.nontriv(("layout", base + i, chk.evaluations))
     # (b) embedded Rust
     rng = chk.rng("embed")
-    m = {"quick": 60, "thorough": 600}[tier]
+    m = {"quick": 90, "thorough": 600}[tier]
     subj = subject.Subject(chk.work)
     specs = []
     expect = {}
